@@ -61,7 +61,8 @@ func (w *World) makeChainItem(k int, r *core.Rand) *Item {
 	sp.PreChainEP = sp.Precert
 	if r.Chance(1, 2) {
 		sp.Defect = []string{"missing-intermediate", "wrong-order", "na-before-start", "na-at-start", "na-limit-minus-1s", "na-at-limit", "eku-client",
-			"eku-none", "wrong-endpoint", "malformed-json", "malformed-b64", "malformed-der", "empty-chain", "extra-unrelated-cert"}[r.Intn(14)]
+			"eku-none", "wrong-endpoint", "malformed-json", "malformed-b64", "malformed-der", "empty-chain", "extra-unrelated-cert",
+			"poison-noncritical", "poison-badvalue"}[r.Intn(16)]
 	}
 	switch sp.Defect {
 	case "na-before-start":
@@ -78,6 +79,18 @@ func (w *World) makeChainItem(k int, r *core.Rand) *Item {
 		o.NoEKU = true
 	case "wrong-endpoint":
 		sp.PreChainEP = !sp.Precert
+	case "poison-noncritical", "poison-badvalue":
+		// a malformed CT poison extension: neither a certificate nor a
+		// precertificate, refused at both endpoints
+		if sp.Issuer == "preissuer" {
+			sp.Issuer = "inter0"
+		}
+		sp.Precert = false
+		sp.PreChainEP = r.Chance(1, 2)
+		o.BadPoison = 1
+		if sp.Defect == "poison-badvalue" {
+			o.BadPoison = 2
+		}
 	}
 	o.Precert = sp.Precert
 	if (r.Chance(1, 6) || (p.Prop == "C17" && r.Chance(1, 2))) && !sp.Precert {
@@ -195,7 +208,8 @@ func (w *World) expectAccept(in *Instance, it *Item) bool {
 		return false
 	}
 	switch sp.Defect {
-	case "missing-intermediate", "wrong-order", "eku-client", "eku-none", "wrong-endpoint", "empty-chain", "extra-unrelated-cert":
+	case "missing-intermediate", "wrong-order", "eku-client", "eku-none", "wrong-endpoint", "empty-chain", "extra-unrelated-cert",
+		"poison-noncritical", "poison-badvalue":
 		return false
 	}
 	// the shard window [start, limit), from the construction parameter
